@@ -15,7 +15,7 @@ out = ["# Sensitivity of the checks: seeded regressions", "",
        "Two kinds of deliberate breakage were applied to scratch copies of `/repo` (never to `/repo` itself):", "",
        "* **seeded/** - %d regressions written by independent sub-agents: 20 agents in a first round (two regressions per property)," % n,
        "  20 more in a second round (two further regressions per property, asked for rarer triggers and told only the one-line titles of",
-       "  the first round's regressions), 10 more in a third round (properties C01 C03 C04 C06 C07 C11 C12 C15 C17 C20; asked for regressions",
+       "  the first round's regressions), 20 more in a third round (asked for regressions",
        "  made of two cooperating changes or depending on state left by earlier calls). Each agent saw only the text of one property and its own git worktree of `/repo`; nothing from",
        "  `/verif`. Every regression compiles, passes the repository's 48 tests and comes with a demonstration that passes without and",
        "  fails with the change; all three facts were re-confirmed with `tools/verify_seeded.sh` before the regression was kept.",
@@ -41,8 +41,10 @@ for d, title, meta in rows:
     out.append("| %s | %s | %s | %s | %s |" % (d, title, f, l, cases))
 out += ["", "%d of the %d were caught by the checks as they were when the regression arrived. Every miss pointed at a shape the generator did" % (first_caught, n),
         "not reach or an observation the oracle did not make; each was closed by widening the generator or the oracle (never by raising",
-        "case counts), after which all are caught - with two exceptions that are explained in their `meta.json`:", "",
+        "case counts), after which all are caught - with three exceptions that are explained in their `meta.json`:", "",
         "* **C12-m4** (a callback switches off the process-wide file restrictions) is outside what C12 quantifies over; it is caught by C16.",
+        "* **C09-m6** is obsolete for the same reason as C16-m4: the scenario written to catch it exposed a genuine defect (fix 8fa01c8), and with",
+        "  the repair the mutated line is dead code.",
         "* **C16-m4** (restrictions evaluated on the realpath-resolved name for relative paths) is obsolete: extending C16 to relative",
         "  paths in order to catch it exposed the underlying behaviour as a genuine defect of the library (fix 39c4358); after the repair the",
         "  mutation is behaviour-preserving.", "",
@@ -77,7 +79,15 @@ out += ["", "%d of the %d were caught by the checks as they were when the regres
         "| C12-m5 | caller's options object keeps a stale copy of the process-wide list after a failed read | C12 / C01: the options object first goes through a failing read under another list |",
         "| C15-m6 | repeated PARSING_DIRS accumulates | every candidate directory has drop-ins with names and keys of its own; nothing of a non-selected directory may be visible |",
         "| C17-m5 | layered read keeps the main file's path when the later file has no entries | C17 reads its file once more through econf_readDirs with an entry-less / one-key drop-in: path must be empty |",
-        "| C17-m6 | directory of a relative name cached across chdir | C17 reads the same relative name from two working directories |", "",
+        "| C17-m6 | directory of a relative name cached across chdir | C17 reads the same relative name from two working directories |",
+        "| C05-m6 | lines of 16383+ characters are split by the reader (C14 caught it) | 3% of C05's inserted comment lines are blown up to lengths around 1-4x and 8x BUFSIZ |",
+        "| C08-m6 | a refused `econf_setBoolValue` wipes the stored value | C08 (in memory and through files) and C11 follow some sets with a boolean set that must be refused and must not change anything |",
+        "| C09-m5 | boolean getter compares only the first five characters (`falsehood` -> false) | boolean texts that contain an accepted spelling as a proper part: word+tail, head+word, word+word, word cut short, last letter repeated |",
+        "| C09-m6 | stale pointer gives bare keys of a delimiter-less file a value (C02 caught it) | new C09 scenario: lists of bare keys with numeric-looking names, some followed by comments, through every typed getter. The scenario exposed a genuine defect of the unchanged library (fix 8fa01c8); after the repair the mutation is behaviour-preserving |",
+        "| C14-m5 | writer re-uses a buffer sized for an earlier, shorter comment: a later comment of exactly 8192 bytes loses a byte | the neighbours of C14's long entry carry short comments of their own |",
+        "| C14-m6 | relative name whose absolute form has PATH_MAX-1 characters is refused | the total-path cells also read the deep file by relative name from its own directory |",
+        "| C16-m5 | `econf_followSymlinks(true)` after `econf_requireOwner/Group` switches those checks off | C16 calls the setters in a generated order, with an explicit `followSymlinks(true)` when the rule is off |",
+        "| C16-m6 | owner/group compared against the parent directory while a permission rule is active | C16 adds, in 30% of its cases, a permission rule every generated file and directory satisfies |", "",
         "Own mutants exposed two more gaps (both closed): a shallow copy of `comment_before_key` in `cpy_file_entry` (C03 now takes a full",
         "extended dump of the merge result after both inputs were freed, parsed inputs carry comments) and `econftool` printing at most two",
         "value lines (C19's multi-line values now have 2-4 lines).", "",
